@@ -2,6 +2,7 @@ import NbioVerif.Model.Rfc6455
 import NbioVerif.Model.WsMask
 import NbioVerif.Model.WsTrunc
 import NbioVerif.Model.WsUp
+import NbioVerif.Model.WsHandshake
 import NbioVerif.DrvCommon
 /-! wsdrv: runs the websocket model on the annotated ops of `hws exec` (see harness/cmd/hws/main.go) -/
 open Ws Drv
@@ -107,6 +108,17 @@ structure DS where
   c : S := {}
   sv : S := {}
 
+/-- "hexk:hexv,hexk:hexv" -/
+def kvList (x : String) : List (List UInt8 × List UInt8) :=
+  if x == "-" || x == "" then [] else
+  (splitNE x ",").filterMap fun p => match p.splitOn ":" with
+    | [k, v] => some (unhex k, unhex v)
+    | _ => none
+
+def hexItems (x : String) : List (List UInt8) := (splitNE x ",").map unhex
+
+def sortStrings (l : List String) : List String := (l.toArray.qsort (· < ·)).toList
+
 def opType (s : String) : Nat :=
   match s with
   | "text" => 1 | "binary" => 2 | "close" => 8 | "ping" => 9 | "pong" => 10 | _ => s.toNat!
@@ -162,6 +174,60 @@ partial def loop (h : IO.FS.Stream) (d : DS) : IO Unit := do
                      readLimit := 0, maxFrame := (f "maxframe").toNat!, isClient := false }
     IO.println "ok"; loop h { mode := "rt", g, gc := { g with isClient := true } }
   | "C" :: "mask" :: _ => IO.println "ok"; loop h { mode := "mask" }
+  | "C" :: "hs" :: _ => IO.println "ok"; loop h { mode := "hs" }
+  | "Q" :: _ =>
+    if d.mode != "hs" then IO.println "bad-op"; loop h d else
+    let sha := unhex (f "sha")
+    let u : WsH.UCfg := { enableCompression := f "ec" == "1",
+                          subprotocols := if f "sp" == "nil" then none else some (hexItems (f "sp")),
+                          originOk := f "origin" != "0",
+                          respHeader := WsH.canonHeader (kvList (f "rh")) }
+    -- the first key header carries the value the Upgrader saw (uk=x<hex>), when the harness reports one
+    let hd0 := WsH.canonHeader (kvList (f "hd"))
+    let uk := f "uk"
+    let hd1 := if uk.startsWith "x" then
+        (hd0.foldl (fun (acc : List (List UInt8 × List UInt8) × Bool) kv =>
+          if !acc.2 && kv.1 == WsH.s "Sec-Websocket-Key" then (acc.1 ++ [(kv.1, unhex (uk.drop 1).toString)], true) else (acc.1 ++ [kv], acc.2)) ([], false)).1
+      else hd0
+    let r : WsH.Req := { method := unhex (if f "um" == "" || f "um" == "-" then f "m" else f "um"), header := hd1 }
+    match WsH.upgradeDecision (fun _ => sha) u r with
+    | .error e => IO.println s!"Q err={e.code} status={e.status}"; loop h d
+    | .ok (hd, c) =>
+      IO.println s!"Q ok rx={if c.enableCompression then 1 else 0} wx={if c.writeCompression then 1 else 0} proto={hex c.subprotocol} resp={short (WsH.render101 hd)}"
+      loop h d
+  | "P" :: _ =>
+    if d.mode != "hs" then IO.println "bad-op"; loop h d else
+    let sha := unhex (f "sha")
+    let key := unhex (f "key")
+    let dc : WsH.DCfg := { enableCompression := f "ec" == "1", subprotocols := if f "sp" == "-" then [] else hexItems (f "sp"), host := [] }
+    let rq := WsH.dialRequest dc key
+    let lines := sortStrings ((rq.header.filter fun kv => kv.1 != WsH.s "Host" && kv.1 != WsH.s "Sec-Websocket-Key").map fun kv => hex kv.1 ++ ":" ++ hex kv.2)
+    let req := String.ofList (rq.method.map fun b => Char.ofNat b.toNat) ++ "|" ++ String.intercalate "," lines
+    let accHdr : List (List UInt8 × List UInt8) := match f "accept" with
+      | "ok" => [(WsH.s "Sec-Websocket-Accept", WsH.acceptKey (fun _ => sha) key)]
+      | "bad" => [(WsH.s "Sec-Websocket-Accept", WsH.s "bad")]
+      | _ => []
+    match WsH.dialerAccepts (fun _ => sha) dc key (f "status").toNat! (accHdr ++ WsH.canonHeader (kvList (f "hd"))) with
+    | .error e => IO.println s!"P err={match e with | .badHandshake => 7 | .invalidCompression => 8} req={req}"; loop h d
+    | .ok c =>
+      IO.println s!"P ok rx={if c.enableCompression then 1 else 0} wx={if c.writeCompression then 1 else 0} proto={hex c.subprotocol} req={req}"
+      loop h d
+  | "Z" :: _ =>
+    if d.mode != "hs" then IO.println "bad-op"; loop h d else
+    -- the model Dialer against the model Upgrader (key and SHA-1 cancel out: any well-formed key, any function)
+    let key := WsH.s "dGhlIHNhbXBsZSBub25jZQ=="
+    let dc : WsH.DCfg := { enableCompression := f "cec" == "1", subprotocols := if f "csp" == "-" then [] else hexItems (f "csp"), host := [] }
+    let u : WsH.UCfg := { enableCompression := f "sec" == "1", subprotocols := if f "ssp" == "nil" then none else some (hexItems (f "ssp")),
+                          originOk := true, respHeader := [] }
+    let b (x : Bool) : Nat := if x then 1 else 0
+    match WsH.upgradeDecision (fun _ => []) u (WsH.dialRequest dc key) with
+    | .error e => IO.println s!"Z err=0 serr={e.code}"; loop h d
+    | .ok (hd, sc) =>
+      match WsH.dialerAccepts (fun _ => []) dc key 101 (WsH.canonHeader hd) with
+      | .error e => IO.println s!"Z err={match e with | .badHandshake => 7 | .invalidCompression => 8} serr=0"; loop h d
+      | .ok cc =>
+        IO.println s!"Z ok srx={b sc.enableCompression} swx={b sc.writeCompression} crx={b cc.enableCompression} cwx={b cc.writeCompression} proto={hex sc.subprotocol}/{hex cc.subprotocol}"
+        loop h d
   | "C" :: "utf8" :: _ => IO.println "ok"; loop h { mode := "utf8" }
   | "C" :: "trunc" :: _ => IO.println "ok"; loop h { mode := "trunc" }
   | "T" :: sp :: _ =>
